@@ -15,6 +15,7 @@ import (
 
 type Engine struct {
 	repo        string
+	extSorts    map[string]Sort // result sorts of the extern result functions seen so far
 	modulePath  string
 	pkgs        []*packages.Package
 	prog        *ssa.Program
@@ -62,7 +63,7 @@ func LoadEngine(repo string, patterns []string, overlay map[string][]byte) (*Eng
 	prog, spkgs := ssautil.Packages(pkgs, ssa.GlobalDebug)
 	prog.Build()
 	e := &Engine{repo: repo, pkgs: pkgs, prog: prog, spkgs: spkgs, sorts: NewSorts(), contracts: NewContractSet(),
-		compSeen: map[string]Sort{}, effMemo: map[string]*effects{}, privMemo: map[*ssa.Alloc]bool{}, inlineLimit: 60, fnByKey: map[string]*ssa.Function{}}
+		extSorts: map[string]Sort{}, compSeen: map[string]Sort{}, effMemo: map[string]*effects{}, privMemo: map[*ssa.Alloc]bool{}, inlineLimit: 60, fnByKey: map[string]*ssa.Function{}}
 	for _, p := range pkgs {
 		if p.Module != nil {
 			e.modulePath = p.Module.Path
